@@ -50,6 +50,10 @@ THEOREMS = [
     'C14.fault_box_vector_restores', 'C14.fault_lattice_vector_restores', 'C14.wrapPos_insidePeriodic',
     'C14.wrapPos_cut', 'C14.orbit_shift_perm', 'C14.fault_orbit_restores', 'C14.push_restores_minimum_r',
     'C14.isFloor_ratFloor',
+    # FreeSurface / StackingFault as objects: state kept between calls, histories of calls
+    'C14.faultWith_maskOf', 'C14.sfNew_coherent', 'C14.sfStep_coherent', 'C14.sfRun_coherent', 'C14.surfaceBase_error',
+    'C14.faultCore_eq', 'C14.fault_after_history', 'C14.fault_history_clauses', 'C14.surfaceSF_forgets',
+    'C14.sfRun_history_independent', 'C14.history_eq_fresh', 'C14.surfaceSF_default_plane', 'C14.vacuum_same_crystal',
 ]
 PARTIAL = {
     'isclose_as_exact_zero': 'np.isclose(x, 0) / np.isclose(mag, b_mag) / the arccos-based angle comparisons are modelled '
@@ -1003,12 +1007,979 @@ def _correspond_fault(ctx, sf, info, ci, cut, exact):
     return done
 
 
+# ----------------------------------------------------------------------------------------
+# object histories: sequences of calls on ONE FreeSurface / StackingFault object
+#   surface(shift / shiftindex / sizemults / minwidth / even / vacuumwidth / faultpos_*) -> faultpos setters ->
+#   fault(a1, a2, ...) / iterfaultmap -> surface() again -> fault() ...
+# The same runner serves the correspondence (every call mirrored on the Lean object `sf ...`, every attribute
+# compared after every call) and the search (specification-level shadow, a fresh object given the same final
+# arguments, and the exact clause oracle on every fault() result).
+# ----------------------------------------------------------------------------------------
+_ERR = ((AssertionError, 'assert'), (IndexError, 'index'), (AttributeError, 'attr'), (TypeError, 'type'),
+        (ValueError, 'value'))
+
+
+def _ecls(e):
+    for k, v in _ERR:
+        if isinstance(e, k):
+            return v
+    return type(e).__name__
+
+
+def _hist_new(spec):
+    import numpy as np
+    from atomman.defect import StackingFault, FreeSurface
+    ucell, st = [(u, s_) for k, u, s_ in crystal_list(spec['a'], spec['c'], spec['exact']) if k == spec['crystal']][0]
+    kw = dict(spec.get('ctor') or {})
+    if kw.get('shift') is not None:
+        kw['shift'] = np.array(kw['shift'], dtype=float)
+    cls = StackingFault if spec['cls'] == 'SF' else FreeSurface
+    sf = cls(list(spec['hkl']), ucell, cutboxvector=spec['cut'], maxindex=spec['maxindex'], conventional_setting=st,
+             tol=spec['tol'], **kw)
+    return sf, ucell, st
+
+
+def _kw_real(kw):
+    """JSON form of keyword arguments -> what the real call receives (fresh lists / arrays on every call:
+    surface() edits the sizemults list it is given)."""
+    import numpy as np
+    out = {}
+    for k, v in kw.items():
+        if k == 'sizemults' and v is not None:
+            out[k] = [tuple(m) if isinstance(m, (list, tuple)) else int(m) for m in v]
+        elif k in ('shift', 'faultshift', 'a1vect_uvw', 'a2vect_uvw') and v is not None:
+            out[k] = np.array(v, dtype=float)
+        else:
+            out[k] = v
+    return out
+
+
+def _apply(sf, op):
+    """one call on a real object -> ('ok', value) | ('err', class, message); an exception raised by the
+    implementation is an observation."""
+    k = op['op']
+    try:
+        if k == 'surface':
+            sf.surface(**_kw_real(op['kw']))
+            return ('ok', None)
+        if k == 'set_shift':
+            sf.set_shift(**_kw_real(op['kw']))
+            return ('ok', None)
+        if k == 'fprel':
+            sf.faultpos_rel = op['value']
+            return ('ok', None)
+        if k == 'fpcart':
+            sf.faultpos_cart = op['value']
+            return ('ok', None)
+        if k == 'fault':
+            return ('ok', sf.fault(**_kw_real(op['kw'])))
+        if k == 'map':
+            return ('ok', [(float(a1), float(a2), s) for a1, a2, s in sf.iterfaultmap(**_kw_real(op['kw']))])
+    except Exception as e:  # noqa
+        return ('err', _ecls(e), str(e)[:120])
+    raise cm.InfraError('unknown history op ' + str(k))
+
+
+def _priv(sf, cls, name):
+    return getattr(sf, f'_{cls}__{name}', None)
+
+
+def _state(sf):
+    """attributes of a real object, read without the AttributeError the public properties raise."""
+    return {'shift': sf.shift, 'system': _priv(sf, 'FreeSurface', 'system'),
+            'area': _priv(sf, 'FreeSurface', 'surfacearea'),
+            'fprel': _priv(sf, 'StackingFault', 'faultpos_rel'), 'fpcart': _priv(sf, 'StackingFault', 'faultpos_cart'),
+            'above': _priv(sf, 'StackingFault', 'abovefault'),
+            'a1c': _priv(sf, 'StackingFault', 'a1vect_cart'), 'a2c': _priv(sf, 'StackingFault', 'a2vect_cart')}
+
+
+def _to3(v):
+    """3-index form of a crystal vector given with 3 or 4 indices."""
+    v = [float(x) for x in v]
+    return [2 * v[0] + v[1], 2 * v[1] + v[0], v[3]] if len(v) == 4 else v
+
+
+# ---- requests to the Lean object ---------------------------------------------------------
+def _tok_shift(kw):
+    s, i = kw.get('shift'), kw.get('shiftindex')
+    if s is not None and i is not None:
+        return 'b'
+    if s is not None:
+        return ('r ' if kw.get('shiftscale') is True else 'v ') + cm.frs([float(x) for x in s])
+    if i is not None:
+        return 'i %d' % int(i)
+    return 'k'
+
+
+def _tok_fpos(kw):
+    r, c = kw.get('faultpos_rel'), kw.get('faultpos_cart')
+    if r is not None and c is not None:
+        return 'b'
+    if c is not None:
+        return 'c ' + cm.fr(c)
+    if r is not None:
+        return 'r ' + cm.fr(r)
+    return 'n'
+
+
+def _tok_mult(m):
+    return 'p %d %d' % (m[0], m[1]) if isinstance(m, (list, tuple)) else 'i %d' % m
+
+
+def _tok_uvw(v):
+    return '-' if v is None else cm.frs(_to3(v))
+
+
+def _opt(x):
+    return '-' if x is None else cm.fr(x)
+
+
+def _model_line(op, W, cls):
+    k = op['op']
+    kw = op.get('kw') or {}
+    if k == 'surface':
+        sm = kw.get('sizemults') or [1, 1, 1]
+        mw = kw.get('minwidth')
+        q = '-' if mw is None else str(int(math.ceil(mw / W)))
+        return ' '.join(['sf', 'surface' if cls == 'SF' else 'fsurface', _tok_shift(kw)] + [_tok_mult(m) for m in sm]
+                        + [q, str(int(bool(kw.get('even')))), _opt(kw.get('vacuumwidth')), _tok_fpos(kw)])
+    if k == 'set_shift':
+        return 'sf shift ' + _tok_shift(kw)
+    if k == 'fprel':
+        return 'sf fprel ' + cm.fr(op['value'])
+    if k == 'fpcart':
+        return 'sf fpcart ' + cm.fr(op['value'])
+    coef = [kw.get('a1'), kw.get('a2'), kw.get('outofplane')]
+    if k == 'fault':
+        if kw.get('faultshift') is not None:
+            fs = 'b' if any(x is not None for x in coef) else 'd ' + cm.frs([float(x) for x in kw['faultshift']])
+        elif any(x is not None for x in coef):
+            fs = 'c ' + ' '.join(_opt(x) for x in coef)
+        else:
+            fs = 'n'
+        return ' '.join(['sf fault', _tok_uvw(kw.get('a1vect_uvw')), _tok_uvw(kw.get('a2vect_uvw')), _tok_fpos(kw), fs])
+    if k == 'map':
+        n1 = 1 if kw.get('num_a1') is None else kw['num_a1']
+        n2 = 1 if kw.get('num_a2') is None else kw['num_a2']
+        return ' '.join(['sf map', _tok_uvw(kw.get('a1vect_uvw')), _tok_uvw(kw.get('a2vect_uvw')), _tok_fpos(kw),
+                         str(n1), str(n2), _opt(kw.get('outofplane'))])
+    raise cm.InfraError('unknown history op ' + str(k))
+
+
+def _prim_uvws(sf, st):
+    import numpy as np
+    prim = _conv_to_prim(np.asarray(sf.uvws, dtype=float).tolist(), st)
+    U = [[int(round(x)) for x in r] for r in prim]
+    if any(abs(x - i) > 1e-9 for r, ri in zip(prim, U) for x, i in zip(r, ri)) or _det(U) == 0:
+        return None
+    return U
+
+
+def _model_new(ctx, sf, spec, st):
+    """create the Lean object from what __init__ fixed: rotated cell, offered shifts, centring matrix and the
+    exact map primitive indices -> Cartesian vectors of the rotated frame, inv(U) . rcell.box.vects."""
+    import numpy as np
+    U = _prim_uvws(sf, st)
+    if U is None:
+        return 'err:uvws'
+    rv = [[F(float(x)) for x in r] for r in sf.rcell.box.vects]
+    mcart = _matmul(_inv([[F(x) for x in r] for r in U]), rv)
+    L = _c2p_int(st)
+    line = ' '.join(['sf new', spec['cut'], _tok_shift(spec.get('ctor') or {}), cm.fr(1e-8), str(len(sf.shifts)),
+                     cm.frs(np.asarray(sf.shifts, dtype=float)), ' '.join(str(x) for r in L for x in r),
+                     ' '.join(cm.fr(x) for r in mcart for x in r), cm.frs(sf.rcell.box.vects),
+                     cm.frs(sf.rcell.box.origin), cm.frs(sf.rcell.atoms.pos)])
+    return ctx.driver.ask(line)
+
+
+def _parse_mstate(out):
+    """reply of `sf state` -> dict."""
+    sh, fr_, fc, ab, av, sy = [p.strip() for p in out.split(';')]
+    d = {'shift': [float(x) for x in cm.unfrs(sh)], 'fprel': None if fr_ == '-' else float(F(fr_)),
+         'fpcart': None if fc == '-' else float(F(fc)),
+         'above': None if ab == '-' else ([] if ab == 'e' else [t == '1' for t in ab.split()])}
+    a = [float(x) for x in cm.unfrs(av)]
+    d['a1c'], d['a2c'] = a[:3], a[3:]
+    if sy == '-':
+        d['system'] = None
+    else:
+        t = sy.split()
+        d['system'] = {'vects': [float(F(x)) for x in t[:9]], 'origin': [float(F(x)) for x in t[9:12]],
+                       'pbc': [x == '1' for x in t[12:15]], 'area2': float(F(t[15])), 'natoms': int(t[16])}
+    return d
+
+
+def _pos_mismatch(P, M, vects, origin, pbc, skip=None):
+    """first atom whose real position differs from the model's by more than rounding; a whole periodic cell
+    vector is allowed for atoms the model places on a cell face (the floor of wrap() is discontinuous there)."""
+    import numpy as np
+    P, M = np.asarray(P, dtype=float), np.asarray(M, dtype=float)
+    if P.shape != M.shape:
+        return -1
+    if len(P) == 0:
+        return None
+    inv = np.linalg.inv(np.asarray(vects, dtype=float))
+    drel = (P - M) @ inv
+    srel = (M - np.asarray(origin, dtype=float)) @ inv
+    nint = np.rint(drel)
+    nearface = (np.minimum(srel - np.floor(srel), np.ceil(srel) - srel) < 1e-9) & np.asarray(pbc, dtype=bool)[None, :]
+    bad = ((np.abs(drel - nint) > 1e-9) | ((nint != 0) & ~nearface)).any(axis=1)
+    if skip is not None:
+        bad &= ~np.asarray(skip, dtype=bool)
+    return int(np.argmax(bad)) if bad.any() else None
+
+
+def _near_plane(P, ci, fp, W):
+    import numpy as np
+    if fp is None:
+        return np.zeros(len(P), dtype=bool)
+    return np.abs(np.asarray(P, dtype=float)[:, ci] - fp) <= 1e-9 * max(1.0, abs(W))
+
+
+def _cmp_model_state(ctx, sf, cls, W, tag, info):
+    """every attribute of the real object against the Lean object after a call.  Returns False on a disagreement."""
+    import numpy as np
+    real = _state(sf)
+    m = _parse_mstate(ctx.driver.ask('sf state'))
+    ci = sf.cutindex
+
+    def dis(key, what):
+        ctx.disagree('hist:' + key, f'{tag}: {what}', info)
+        return False
+    if not np.allclose(np.asarray(real['shift'], dtype=float), m['shift'], rtol=1e-12, atol=1e-12 * max(1.0, abs(W))):
+        return dis('shift', f'shift {np.asarray(real["shift"]).tolist()}, model {m["shift"]}')
+    rs, ms = real['system'], m['system']
+    if (rs is None) != (ms is None):
+        return dis('system', f'system {"built" if rs is not None else "not built"}, model '
+                   f'{"built" if ms is not None else "not built"}')
+    P = None
+    if rs is not None:
+        scale = float(np.abs(rs.box.vects).max())
+        if not np.allclose(list(rs.box.vects.ravel()) + list(rs.box.origin), ms['vects'] + ms['origin'], rtol=0,
+                           atol=1e-10 * scale):
+            return dis('box', f'box {rs.box.vects.tolist()} origin {rs.box.origin.tolist()}, model {ms["vects"]} '
+                       f'origin {ms["origin"]}')
+        if [bool(x) for x in rs.pbc] != ms['pbc']:
+            return dis('pbc', f'pbc {list(rs.pbc)}, model {ms["pbc"]}')
+        if rs.natoms != ms['natoms']:
+            return dis('natoms', f'{rs.natoms} atoms, model {ms["natoms"]}')
+        if real['area'] is None or abs(float(real['area']) ** 2 - ms['area2']) > 1e-9 * max(1.0, ms['area2']):
+            return dis('surfacearea', f'surfacearea {real["area"]}, model sqrt({ms["area2"]})')
+        out = ctx.driver.ask('sf pos')
+        M = np.array([float(x) for x in cm.unfrs(out)]).reshape(-1, 3) if not out.startswith('err') else np.zeros((0, 3))
+        P = np.asarray(rs.atoms.pos, dtype=float)
+        i = _pos_mismatch(P, M, rs.box.vects, rs.box.origin, [True, True, True])
+        if i is not None:
+            return dis('positions', f'atom {i} of the stored system at {P[i].tolist() if i >= 0 else "?"}, model '
+                       f'{M[i].tolist() if 0 <= i < len(M) else "?"}')
+    if cls != 'SF':
+        return True
+    for k in ('fprel', 'fpcart'):
+        if (real[k] is None) != (m[k] is None) or (real[k] is not None and
+                                                    abs(float(real[k]) - m[k]) > 1e-10 * max(1.0, abs(W), abs(m[k]))):
+            return dis(k, f'{k} {real[k]}, model {m[k]}')
+    for k in ('a1c', 'a2c'):
+        if not np.allclose(np.asarray(real[k], dtype=float), m[k], rtol=0, atol=1e-9 * max(1.0, float(np.abs(m[k]).max()))):
+            return dis(k, f'{k} {np.asarray(real[k]).tolist()}, model {m[k]}')
+    ra, ma = real['above'], m['above']
+    if (ra is None) != (ma is None):
+        return dis('above', f'abovefault {"set" if ra is not None else "unset"}, model {"set" if ma is not None else "unset"}')
+    if ra is not None:
+        ra = [bool(x) for x in ra]
+        if len(ra) != len(ma):
+            return dis('above', f'abovefault has {len(ra)} entries, model {len(ma)}')
+        if P is not None and len(P) == len(ra):
+            near = _near_plane(P, ci, m['fpcart'], W)
+            bad = [i for i in range(len(ra)) if ra[i] != ma[i] and not near[i]]
+            if bad:
+                return dis('above', f'cached abovefault differs from the model for atoms {bad[:6]} (cut coordinates '
+                           f'{[float(P[i, ci]) for i in bad[:6]]}, fault plane {m["fpcart"]})')
+    return True
+
+
+def _cmp_model_result(ctx, sf, op, res, out, W, tag, info):
+    """value returned by fault() / iterfaultmap() against the Lean object's."""
+    import numpy as np
+    s = _priv(sf, 'FreeSurface', 'system')
+    ci = sf.cutindex
+    fp = _priv(sf, 'StackingFault', 'faultpos_cart')
+
+    def one(new, mpos, what):
+        P0 = np.asarray(s.atoms.pos, dtype=float)
+        Q = np.asarray(new.atoms.pos, dtype=float)
+        M = np.array([float(x) for x in cm.unfrs(mpos)]).reshape(-1, 3)
+        i = _pos_mismatch(Q, M, s.box.vects, s.box.origin, [bool(x) for x in s.pbc], skip=_near_plane(P0, ci, fp, W))
+        if i is not None:
+            ctx.disagree('hist:fault-positions', f'{tag}: {what} moved atom {i} ({P0[i].tolist() if i >= 0 else "?"}) to '
+                         f'{Q[i].tolist() if i >= 0 else "?"}, model {M[i].tolist() if 0 <= i < len(M) else "?"}', info)
+            return False
+        return True
+    body = out[3:] if out.startswith('ok') else ''
+    if op['op'] == 'fault':
+        return one(res, body, 'fault()')
+    items = [p for p in body.split('|')] if body.strip() else []
+    if len(items) != len(res):
+        ctx.disagree('hist:map', f'{tag}: iterfaultmap yielded {len(res)} systems, model {len(items)}', info)
+        return False
+    for (a1, a2, new), it in zip(res, items):
+        ab, mpos = it.split(';')
+        ma1, ma2 = [float(x) for x in cm.unfrs(ab)]
+        if abs(a1 - ma1) > 1e-12 or abs(a2 - ma2) > 1e-12:
+            ctx.disagree('hist:map', f'{tag}: iterfaultmap yielded (a1, a2) = ({a1}, {a2}), model ({ma1}, {ma2})', info)
+            return False
+        if not one(new, mpos, f'iterfaultmap at ({a1}, {a2})'):
+            return False
+    return True
+
+
+# ---- generation (online: every call is chosen after looking at the real object) ---------------
+def _eff_extent(sf, kw):
+    """(origin, width) across the cut of the system surface(**kw) builds (minwidth / even / vacuum rules)."""
+    ci = sf.cutindex
+    W = float(sf.rcellwidth)
+    sm = kw.get('sizemults') or [1, 1, 1]
+    m = sm[ci]
+    if isinstance(m, (list, tuple)):
+        lo, n = m[0], m[1] - m[0]
+    else:
+        if kw.get('minwidth') is not None:
+            q = int(math.ceil(kw['minwidth'] / W))
+            if q > abs(m):
+                m = (1 if m > 0 else -1 if m < 0 else 0) * q
+        if kw.get('even') and m % 2 == 1:
+            m = m + 1 if m > 0 else m - 1
+        lo, n = (m, -m) if m < 0 else (0, m)
+    vac = kw.get('vacuumwidth') or 0.0
+    return float(sf.rcell.box.origin[ci]) + lo * W - vac / 2, n * W + vac
+
+
+def _gaps(system, ci):
+    import numpy as np
+    xs = np.unique(np.round(np.asarray(system.atoms.pos, dtype=float)[:, ci], 6))
+    return [(float(xs[i]), float(xs[i + 1])) for i in range(len(xs) - 1) if xs[i + 1] - xs[i] > 1e-3]
+
+
+def _gen_surface_kw(rng, sf, cls):
+    import numpy as np
+    ci = sf.cutindex
+    W = float(sf.rcellwidth)
+    nsh = len(sf.shifts)
+    kw = {}
+    r = rng.random()
+    if r < 0.45:
+        kw['shiftindex'] = rng.randrange(-nsh, nsh)
+    elif r < 0.70:
+        pass
+    elif r < 0.82:
+        s = np.array(sf.shifts[rng.randrange(nsh)], dtype=float)
+        for i in range(3):
+            if i != ci and rng.random() < 0.5:
+                s[i] += rng.choice([0.25, -0.5, 1.0, 0.125])
+        kw['shift'] = s.tolist()
+        if rng.random() < 0.3:
+            kw['shiftscale'] = False
+    elif r < 0.90:
+        s = [0.0, 0.0, 0.0]
+        s[ci] = float(sf.shifts[rng.randrange(nsh)][ci]) / W
+        kw['shift'], kw['shiftscale'] = s, True
+    elif r < 0.95:
+        kw['shiftindex'] = rng.choice([nsh, nsh + 2, -nsh - 1])
+    else:
+        kw['shift'], kw['shiftindex'] = [float(x) for x in sf.shifts[0]], 0
+    if rng.random() < 0.8:
+        sm = [rng.choice([1, 1, 2, -2, [-1, 1], [0, 2]]) for _ in range(3)]
+        sm[ci] = rng.choice([1, 1, 2, 3, -1, -2, 4])
+        if sf.rcell.natoms > 30:
+            sm = [1 if i != ci else min(abs(sm[ci]), 2) * (1 if sm[ci] > 0 else -1) for i in range(3)]
+        if rng.random() < 0.03:
+            sm[(ci + rng.choice([1, 2])) % 3] = [0, 0]      # (an int 0 is refused with C04's error classes)
+        kw['sizemults'] = sm
+    if rng.random() < 0.3:
+        kw['minwidth'] = rng.choice([rng.uniform(0.3, 3.5) * W, 2.0 * W])
+    if rng.random() < 0.3:
+        kw['even'] = True
+    r = rng.random()
+    if r < 0.3:
+        kw['vacuumwidth'] = rng.choice([0.0, 4.0, rng.uniform(0.5, 9.0)])
+    elif r < 0.34:
+        kw['vacuumwidth'] = -1.0
+    if cls == 'SF':
+        o, w = _eff_extent(sf, kw)
+        r = rng.random()
+        if r < 0.55:
+            pass
+        elif r < 0.72:
+            kw['faultpos_rel'] = rng.choice([rng.randrange(0, 17) / 16, rng.uniform(0.05, 0.95)])
+        elif r < 0.90:
+            kw['faultpos_cart'] = o + rng.choice([rng.randrange(1, 32) / 32, rng.uniform(0.05, 0.95)]) * w
+        elif r < 0.94:
+            kw['faultpos_rel'] = rng.choice([1.5, -0.25])
+        elif r < 0.97:
+            kw['faultpos_cart'] = o + rng.choice([-0.5, 1.75]) * (abs(w) + 1.0)
+        else:
+            kw['faultpos_rel'], kw['faultpos_cart'] = 0.5, o + 0.5 * w
+    return kw
+
+
+def _gen_fpos(rng, sf, kw, p):
+    """with probability p add a fault-plane position to kw: mostly midway between two atomic layers of the
+    stored system (Cartesian or relative), sometimes on a grid, rarely outside."""
+    s = _priv(sf, 'FreeSurface', 'system')
+    if s is None or rng.random() >= p:
+        return
+    ci = sf.cutindex
+    o, w = float(s.box.origin[ci]), float(s.box.vects[ci, ci])
+    gaps = _gaps(s, ci)
+    r = rng.random()
+    if r < 0.06:
+        kw['faultpos_rel'] = rng.choice([1.25, -0.5])
+    elif r < 0.10:
+        kw['faultpos_cart'] = o + 2.0 * abs(w) + 1.0
+    elif r < 0.13:
+        kw['faultpos_rel'], kw['faultpos_cart'] = 0.5, o + 0.5 * w
+    elif gaps and r < 0.75:
+        p_, q_ = rng.choice(gaps)
+        fp = (p_ + q_) / 2
+        if rng.random() < 0.5:
+            kw['faultpos_cart'] = fp
+        else:
+            kw['faultpos_rel'] = (fp - o) / w
+    else:
+        kw['faultpos_rel'] = rng.randrange(0, 17) / 16
+
+
+def _gen_avect(rng, sf, kw, p):
+    import numpy as np
+    if rng.random() >= p:
+        return
+    uv = np.asarray(sf.uvws, dtype=float)
+    ci = sf.cutindex
+    i1, i2 = (ci + 1) % 3, (ci + 2) % 3
+    cands = [uv[i1] + uv[i2], uv[i2], -uv[i1], 2 * uv[i1], uv[i1] - uv[i2], uv[i1], uv[ci], uv[i1] + uv[ci]]
+    for key in ('a1vect_uvw', 'a2vect_uvw'):
+        if rng.random() < 0.6:
+            v = cands[rng.randrange(len(cands))]
+            if len(v) == 4 and rng.random() < 0.4:
+                v = np.array(_to3(v))
+            kw[key] = [float(x) for x in v]
+
+
+def _gen_fault_kw(rng, sf):
+    import numpy as np
+    kw = {}
+    grid1 = [0.0, 0.5, 1 / 3, 0.25, 1.0, -1.0, 2.0, 0.125]
+    grid2 = [0.0, 0.5, 2 / 3, 0.75, 1.0, -0.5]
+    r = rng.random()
+    if r < 0.68:
+        if rng.random() < 0.85:
+            kw['a1'] = rng.choice(grid1)
+        if rng.random() < 0.7:
+            kw['a2'] = rng.choice(grid2)
+        if rng.random() < 0.3:
+            kw['outofplane'] = rng.choice([0.0, 0.3, -0.2])
+    elif r < 0.84:
+        a1c, a2c = np.asarray(sf.a1vect_cart, dtype=float), np.asarray(sf.a2vect_cart, dtype=float)
+        v = rng.choice(grid1) * a1c + rng.choice(grid2) * a2c
+        v[sf.cutindex] += rng.choice([0.0, 0.0, 0.25])
+        kw['faultshift'] = [float(x) for x in v]
+    elif r < 0.95:
+        pass
+    else:
+        kw['faultshift'], kw['a1'] = [0.5, 0.0, 0.0], 0.5
+    _gen_fpos(rng, sf, kw, 0.3)
+    _gen_avect(rng, sf, kw, 0.12)
+    return kw
+
+
+def _gen_op(rng, sf, cls, k):
+    built = _priv(sf, 'FreeSurface', 'system') is not None
+    if cls != 'SF':
+        if rng.random() < 0.15:
+            return {'op': 'set_shift', 'kw': {kk: v for kk, v in _gen_surface_kw(rng, sf, 'FS').items()
+                                               if kk in ('shift', 'shiftindex', 'shiftscale')}}
+        return {'op': 'surface', 'kw': _gen_surface_kw(rng, sf, cls)}
+    r = rng.random()
+    if (k == 0 and r < 0.9) or (built and r < 0.40) or (not built and r < 0.7):
+        return {'op': 'surface', 'kw': _gen_surface_kw(rng, sf, cls)}
+    r = rng.random()
+    if r < 0.55:
+        return {'op': 'fault', 'kw': _gen_fault_kw(rng, sf)}
+    if r < 0.72:
+        kw = {}
+        _gen_fpos(rng, sf, kw, 1.0)
+        if 'faultpos_cart' in kw and 'faultpos_rel' not in kw:
+            return {'op': 'fpcart', 'value': kw['faultpos_cart']}
+        return {'op': 'fprel', 'value': kw.get('faultpos_rel', rng.randrange(0, 9) / 8)}
+    if r < 0.87:
+        kw = {}
+        if rng.random() < 0.8:
+            kw['num_a1'] = rng.choice([1, 2, 3])
+        if rng.random() < 0.6:
+            kw['num_a2'] = rng.choice([1, 2])
+        if rng.random() < 0.25:
+            kw['outofplane'] = 0.2
+        _gen_fpos(rng, sf, kw, 0.25)
+        _gen_avect(rng, sf, kw, 0.08)
+        return {'op': 'map', 'kw': kw}
+    return {'op': 'set_shift', 'kw': {kk: v for kk, v in _gen_surface_kw(rng, sf, 'FS').items()
+                                       if kk in ('shift', 'shiftindex', 'shiftscale')}}
+
+
+def _hist_specs(ctx, rng, count):
+    specs = []
+    names = ['fcc', 'bcc', 'diamond', 'L12', 'B2', 'bct', 'hcp', 'fcc-prim', 'bcc-prim', 'ortho2', 'tet3']
+    small = planes(2)
+    off = rng.randrange(len(names))
+    for i in range(count):
+        exact = i % 4 == 0
+        a, c = crystal_params(rng, exact)
+        nm = names[(i + off) % len(names)]
+        if rng.random() < 0.5:
+            hkl = rng.choice([(1, 0, 0), (0, 0, 1), (1, 1, 0), (1, 1, 1), (0, 1, 1), (1, -1, 0), (0, 0, -1), (2, 1, 0)])
+        else:
+            hkl = rng.choice(small)
+        cut = rng.choice(('c', 'c', 'a', 'b'))
+        if nm == 'hcp' and rng.random() < 0.6:
+            hkl = (hkl[0], hkl[1], -(hkl[0] + hkl[1]), hkl[2])
+        st = {'fcc-prim': 'f', 'bcc-prim': 'i'}.get(nm, 'p')
+        hkl3 = hkl if len(hkl) == 3 else (hkl[0], hkl[1], hkl[3])
+        ctor = {}
+        r = rng.random()
+        if r < 0.25:
+            ctor['shiftindex'] = rng.choice([0, 1, -1])
+        specs.append({'op': 'hist', 'crystal': nm, 'a': a, 'c': c, 'exact': exact, 'hkl': list(hkl), 'cut': cut,
+                      'tol': rng.choice([1e-7, 1e-8, 1e-6]), 'maxindex': _capped(hkl3, st, 3),
+                      'cls': 'SF' if rng.random() < 0.8 else 'FS', 'ctor': ctor, 'hseed': rng.randrange(1 << 30),
+                      'nops': rng.randrange(5, 10)})
+    return specs
+
+
+# ---- specification-level shadow (independent of the object under test) -------------------------
+def _zone(hkl, v):
+    """h u + k v (+ i t) + l w for a plane and a crystal vector of the conventional cell, both with 3 or 4 indices:
+    zero iff the vector lies in the plane."""
+    h = [float(x) for x in hkl]
+    h3 = h if len(h) == 3 else [h[0], h[1], h[3]]
+    v3 = _to3(v)
+    # [uvw] 3-index form of a hexagonal vector pairs with the 3-index plane (hkl) directly
+    return sum(x * y for x, y in zip(h3, v3))
+
+
+class _Shadow:
+    """what the calls so far *mean*: the shift in force, the arguments of the build that produced the stored
+    system, the fault-plane settings since, the shift-vector overrides.  Derived from the arguments alone."""
+
+    def __init__(self, spec, nshifts, hkl):
+        self.nsh = nshifts
+        self.hkl = hkl
+        self.shift_kw = {k: v for k, v in (spec.get('ctor') or {}).items() if k in ('shift', 'shiftindex', 'shiftscale')}
+        self.build = None          # kwargs (with the shift in force made explicit) of the last accepted surface()
+        self.since = []            # fault-plane settings after it: {'faultpos_rel': r} / {'faultpos_cart': c}
+        self.avect = {}
+
+    def _shift_part(self, kw):
+        s, i = kw.get('shift'), kw.get('shiftindex')
+        if s is not None and i is not None:
+            return 'value'
+        if i is not None and not (-self.nsh <= i < self.nsh):
+            return 'index'
+        return None
+
+    @staticmethod
+    def _plane(kw, o, w, default):
+        r, c = kw.get('faultpos_rel'), kw.get('faultpos_cart')
+        if r is not None and c is not None:
+            return 'refused'
+        if c is not None:
+            return c if 0.0 <= (c - o) / w <= 1.0 else 'refused'
+        if r is not None:
+            return o + r * w if 0.0 <= r <= 1.0 else 'refused'
+        return default
+
+    def plane(self, sf):
+        """fault plane in force (Cartesian), None if there is none."""
+        if self.build is None:
+            return None
+        o, w = _eff_extent(sf, self.build)
+        fp = self._plane(self.build, o, w, o + 0.5 * w)
+        fp = None if fp == 'refused' else fp
+        for kw in self.since:
+            p = self._plane(kw, o, w, 'keep')
+            if p not in ('refused', 'keep'):
+                fp = p
+        return fp
+
+    def _prelude(self, sf, kw):
+        """overrides at the head of fault() / iterfaultmap(): expected refusal class or None; records what sticks."""
+        for key in ('a1vect_uvw', 'a2vect_uvw'):
+            v = kw.get(key)
+            if v is not None:
+                if abs(_zone(self.hkl, v)) > 1e-9:
+                    return 'value'
+                self.avect[key] = v
+        r, c = kw.get('faultpos_rel'), kw.get('faultpos_cart')
+        if r is None and c is None:
+            return None
+        if r is not None and c is not None:
+            return 'value'
+        if c is not None and self.build is None:
+            return 'attr'
+        if r is not None and not (0.0 <= r <= 1.0):
+            return 'value'
+        if self.build is None:
+            return 'attr'
+        o, w = _eff_extent(sf, self.build)
+        one = {'faultpos_rel': r} if r is not None else {'faultpos_cart': c}
+        if self._plane(one, o, w, None) == 'refused':
+            return 'value'
+        self.since.append(one)
+        return None
+
+    def expect(self, sf, op):
+        """expected outcome class ('ok' or the refusal) of a call, updating the bookkeeping."""
+        k, kw = op['op'], op.get('kw') or {}
+        if k == 'set_shift':
+            e = self._shift_part(kw)
+            if e:
+                return e
+            self.shift_kw = {kk: v for kk, v in kw.items() if kk in ('shift', 'shiftindex', 'shiftscale')} or {'shiftindex': 0}
+            return 'ok'
+        if k == 'surface':
+            e = self._shift_part(kw)
+            if e:
+                return e
+            if kw.get('shift') is not None or kw.get('shiftindex') is not None:
+                self.shift_kw = {kk: v for kk, v in kw.items() if kk in ('shift', 'shiftindex', 'shiftscale')}
+            sm = kw.get('sizemults') or [1, 1, 1]
+            if any((m[1] - m[0] if isinstance(m, (list, tuple)) else m) == 0 for m in sm):
+                return 'value'
+            if kw.get('vacuumwidth') is not None and kw['vacuumwidth'] < 0:
+                return 'value'
+            b = {kk: v for kk, v in kw.items() if kk not in ('shift', 'shiftindex', 'shiftscale')}
+            b.update(self.shift_kw or {'shiftindex': 0})
+            self.build, self.since = b, []
+            if 'faultpos_rel' in kw or 'faultpos_cart' in kw:
+                o, w = _eff_extent(sf, b)
+                if self._plane(kw, o, w, None) == 'refused':
+                    return 'value'
+            return 'ok'
+        if k in ('fprel', 'fpcart'):
+            return self._prelude(sf, {'faultpos_rel' if k == 'fprel' else 'faultpos_cart': op['value']}) or 'ok'
+        e = self._prelude(sf, kw)
+        if e:
+            return e
+        if k == 'fault':
+            if kw.get('faultshift') is not None and any(kw.get(x) is not None for x in ('a1', 'a2', 'outofplane')):
+                return 'value'
+            return 'ok' if self.plane(sf) is not None else 'attr'
+        n = (1 if kw.get('num_a1') is None else kw['num_a1']) * (1 if kw.get('num_a2') is None else kw['num_a2'])
+        return 'ok' if (n == 0 or self.plane(sf) is not None) else 'attr'
+
+    def fresh(self, pristine):
+        """a new object brought to the same final arguments: overrides, the accepted build, the settings since."""
+        import copy
+        f = copy.deepcopy(pristine)
+        for key, v in self.avect.items():
+            _apply_attr(f, key, v)
+        if self.build is not None:
+            _apply(f, {'op': 'surface', 'kw': self.build})
+            for kw in self.since:
+                if 'faultpos_rel' in kw:
+                    _apply(f, {'op': 'fprel', 'value': kw['faultpos_rel']})
+                else:
+                    _apply(f, {'op': 'fpcart', 'value': kw['faultpos_cart']})
+        return f
+
+
+def _apply_attr(f, key, v):
+    import numpy as np
+    try:
+        setattr(f, key, np.array(v, dtype=float))
+    except Exception:  # noqa
+        pass
+
+
+def _expected_shift(sf, kw):
+    import numpy as np
+    if kw.get('shift') is not None:
+        s = np.array(kw['shift'], dtype=float)
+        return s @ np.asarray(sf.rcell.box.vects, dtype=float) if kw.get('shiftscale') is True else s
+    return np.asarray(sf.shifts[kw.get('shiftindex', 0) if kw.get('shiftindex') is not None else 0], dtype=float)
+
+
+def _same_system(a, b):
+    """None if the two systems are the same (bitwise: same float operations on the same inputs), else what differs."""
+    import numpy as np
+    if (a is None) != (b is None):
+        return 'one is built, the other is not'
+    if a is None:
+        return None
+    if a.natoms != b.natoms:
+        return f'{a.natoms} vs {b.natoms} atoms'
+    if not np.array_equal(a.box.vects, b.box.vects) or not np.array_equal(a.box.origin, b.box.origin):
+        return f'box {a.box.vects.tolist()} origin {a.box.origin.tolist()} vs {b.box.vects.tolist()} origin {b.box.origin.tolist()}'
+    if [bool(x) for x in a.pbc] != [bool(x) for x in b.pbc]:
+        return f'pbc {list(a.pbc)} vs {list(b.pbc)}'
+    if not np.array_equal(a.atoms.atype, b.atoms.atype):
+        return 'atom types differ'
+    P, Q = np.asarray(a.atoms.pos), np.asarray(b.atoms.pos)
+    if not np.array_equal(P, Q):
+        i = int(np.argmax((P != Q).any(axis=1)))
+        return f'atom {i} at {P[i].tolist()} vs {Q[i].tolist()}'
+    return None
+
+
+def _fault_clause(P, Q, above, near, req, system, ci):
+    """atoms below the plane fixed, atoms above moved by exactly `req`, modulo the periodic in-plane cell vectors;
+    -> (index, side) of the first offender or None."""
+    import numpy as np
+    inv = np.linalg.inv(np.asarray(system.box.vects, dtype=float))
+    d = Q - P - np.outer(above, req)
+    drel = d @ inv
+    nint = np.rint(drel)
+    nint[:, ci] = 0
+    scale = float(np.abs(system.box.vects).max())
+    wrong = ((np.abs(drel - nint) > 1e-7).any(axis=1) | (np.abs(d[:, ci]) > 1e-7 * scale)) & ~near
+    if wrong.any():
+        i = int(np.argmax(wrong))
+        return i, ('above' if above[i] else 'below')
+    return None
+
+
+def run_history(ctx, spec, mode, ops=None, report=True):
+    """one history on one object.  mode 'model': mirror on the Lean object (correspondence);
+    mode 'oracle': specification shadow + fresh object + clause oracle (search).  Returns (failed, ops)."""
+    import numpy as np
+    failed = []
+    rng = random.Random(spec['hseed'])
+    try:
+        sf, ucell, st = _hist_new(spec)
+    except (ValueError, AssertionError):
+        return failed, []               # documented refusal of the orientation (checked elsewhere)
+    cls = spec['cls']
+    ci = sf.cutindex
+    W = float(sf.rcellwidth)
+    done = []
+    base = dict(spec)
+
+    def info():
+        return dict(base, ops=done)
+
+    def bad(clause, what):
+        failed.append(clause)
+        if report:
+            head = f'{spec["crystal"]} (a={spec["a"]}, c={spec["c"]}) hkl={spec["hkl"]} cutboxvector={spec["cut"]!r} ' \
+                   f'{"StackingFault" if cls == "SF" else "FreeSurface"} object, after {_show_ops(done)}: '
+            if mode == 'model':
+                ctx.disagree('hist:' + clause, head + what, info())
+            else:
+                _viol(ctx, 'hist:' + clause, head + what, info())
+    if mode == 'model':
+        out = _model_new(ctx, sf, spec, st)
+        if out != 'ok':
+            if report:
+                ctx.disagree('hist:new', f'model refused the object: {out}', info())
+            return ['new'], done
+        if not _cmp_model_state(ctx, sf, cls, W, 'new object', info()):
+            return ['state'], done
+    else:
+        import copy
+        pristine = copy.deepcopy(sf)
+        sh = _Shadow(spec, len(sf.shifts), spec['hkl'])
+    nops = len(ops) if ops is not None else spec['nops']
+    for k in range(nops):
+        op = ops[k] if ops is not None else _gen_op(rng, sf, cls, k)
+        done.append(op)
+        res = _apply(sf, op)
+        tag = f'call {k + 1}'
+        ctx.stats.case('hist:' + mode + ':' + op['op'], (spec['crystal'], tuple(spec['hkl']), spec['cut'], spec['hseed'], k),
+                       nontrivial=res[0] == 'ok', sample={'op': op, 'outcome': res[0] if res[0] == 'ok' else res[1]})
+        if res[0] == 'err' and res[1] not in ('value', 'index', 'attr'):
+            bad('exception', f'{_show_op(op)} raised {res[1]}: {res[2]}')
+            break
+        if mode == 'model':
+            out = ctx.driver.ask(_model_line(op, W, cls))
+            mcls = out[4:] if out.startswith('err:') else 'ok'
+            if mcls in ('format', 'op', 'assert'):
+                raise cm.InfraError(f'driver refused {_model_line(op, W, cls)[:200]}: {out}')
+            rcls = 'ok' if res[0] == 'ok' else res[1]
+            if rcls != mcls:
+                bad('outcome', f'{_show_op(op)} -> {rcls if res[0] == "ok" else res[1] + " (" + res[2] + ")"}, model {mcls}')
+                break
+            if not _cmp_model_state(ctx, sf, cls, W, f'after {_show_ops(done)}', info()):
+                failed.append('state')
+                break
+            if res[0] == 'ok' and op['op'] in ('fault', 'map'):
+                if not _cmp_model_result(ctx, sf, op, res[1], out, W, f'after {_show_ops(done)}', info()):
+                    failed.append('result')
+                    break
+            continue
+        # ---- oracle ------------------------------------------------------------------------------
+        want = sh.expect(sf, op)
+        rcls = 'ok' if res[0] == 'ok' else res[1]
+        if rcls != want:
+            bad('refusal', f'{_show_op(op)} -> {"returned" if res[0] == "ok" else res[1] + " (" + res[2] + ")"}, expected '
+                f'{"a result" if want == "ok" else want}')
+            break
+        # the shift in force
+        if not np.allclose(np.asarray(sf.shift, dtype=float), _expected_shift(sf, sh.shift_kw), rtol=1e-12, atol=1e-12 * W):
+            bad('shift', f'shift is {np.asarray(sf.shift).tolist()}, the last one given is '
+                f'{_expected_shift(sf, sh.shift_kw).tolist()}')
+            break
+        # a fresh object given the same final arguments
+        f = sh.fresh(pristine)
+        rs, fs = _state(sf), _state(f)
+        d = _same_system(rs['system'], fs['system'])
+        if d:
+            bad('system', f'stored system differs from the one a new object builds from the same final arguments: {d}')
+            break
+        if rs['system'] is not None and (rs['area'] is None or fs['area'] is None or float(rs['area']) != float(fs['area'])):
+            bad('surfacearea', f'surfacearea {rs["area"]}, a new object gives {fs["area"]}')
+            break
+        if cls == 'SF' and rs['system'] is not None:     # (before the first build there is nothing fault() could use)
+            stale = None
+            for key in ('fprel', 'fpcart'):
+                if (rs[key] is None) != (fs[key] is None) or (rs[key] is not None and float(rs[key]) != float(fs[key])):
+                    stale = f'{key} {rs[key]} vs {fs[key]}'
+            for key in ('a1c', 'a2c'):
+                if not np.array_equal(np.asarray(rs[key]), np.asarray(fs[key])):
+                    stale = f'{key} {np.asarray(rs[key]).tolist()} vs {np.asarray(fs[key]).tolist()}'
+            if (rs['above'] is None) != (fs['above'] is None) or \
+                    (rs['above'] is not None and not np.array_equal(np.asarray(rs['above']), np.asarray(fs['above']))):
+                stale = 'abovefault mask differs' if rs['above'] is not None and fs['above'] is not None else \
+                    f'abovefault {"set" if rs["above"] is not None else "unset"} vs {"set" if fs["above"] is not None else "unset"}'
+            if stale and 'stale-state' not in failed:
+                # (reported once; the history goes on so that the clause oracle shows what fault() then does)
+                bad('stale-state', f'object state differs from a new object given the same final arguments: {stale}')
+            # the plane in force, from the arguments
+            fp = sh.plane(sf)
+            if fp is not None and (rs['fpcart'] is None or abs(float(rs['fpcart']) - fp) > 1e-9 * max(1.0, W)) \
+                    and 'faultpos' not in failed:
+                bad('faultpos', f'faultpos_cart {rs["fpcart"]}, the arguments put the plane at {fp}')
+        if res[0] != 'ok' or op['op'] not in ('fault', 'map') or rs['system'] is None:
+            continue
+        # ---- clause oracle on what fault() / iterfaultmap() returned ----------------------------------
+        system = fs['system']
+        P = np.asarray(system.atoms.pos, dtype=float)
+        fp = sh.plane(sf)
+        above = P[:, ci] > fp
+        near = _near_plane(P, ci, fp, W)
+        U = _prim_uvws(sf, st)
+        rv = np.asarray(sf.rcell.box.vects, dtype=float)
+        i1, i2 = (ci + 1) % 3, (ci + 2) % 3
+        L = np.array(_c2p_int(st), dtype=float)
+
+        def cartv(key, dflt):
+            v = sh.avect.get(key)
+            if v is None:
+                return rv[dflt]
+            prim = np.array(_to3(v)) @ L
+            return np.linalg.solve(np.array(U, dtype=float).T, prim) @ rv
+        a1c, a2c = cartv('a1vect_uvw', i1), cartv('a2vect_uvw', i2)
+        ovect = np.zeros(3)
+        ovect[ci] = 1.0
+        kw = op['kw']
+        items = [(kw.get('a1'), kw.get('a2'), res[1])] if op['op'] == 'fault' else res[1]
+        if op['op'] == 'map':
+            n1 = 1 if kw.get('num_a1') is None else kw['num_a1']
+            n2 = 1 if kw.get('num_a2') is None else kw['num_a2']
+            wantmesh = [(i / n1, j / n2) for j in range(n2) for i in range(n1)]
+            got = [(x, y) for x, y, _ in items]
+            if len(got) != len(wantmesh) or any(abs(x - p) > 1e-12 or abs(y - q) > 1e-12 for (x, y), (p, q) in zip(got, wantmesh)):
+                bad('map', f'iterfaultmap yielded {got}, expected the mesh {wantmesh}')
+                break
+        stop = False
+        for a1, a2, new in items:
+            if op['op'] == 'fault' and kw.get('faultshift') is not None:
+                req = np.array(kw['faultshift'], dtype=float)
+            else:
+                req = (a1 or 0.0) * a1c + (a2 or 0.0) * a2c + (kw.get('outofplane') or 0.0) * ovect
+            Q = np.asarray(new.atoms.pos, dtype=float)
+            what = f'fault plane at {fp} (cut coordinate), requested shift {req.tolist()}'
+            # (wrap() may stretch the box across the non-periodic cut when atoms are pushed out of it)
+            if Q.shape != P.shape or not np.array_equal(new.box.vects[[i1, i2]], system.box.vects[[i1, i2]]) or \
+                    [bool(x) for x in new.pbc] != [bool(x) for x in system.pbc] or \
+                    not np.array_equal(new.atoms.atype, system.atoms.atype):
+                bad('fault-system', f'{what}: the faulted system is not the stored system with moved atoms')
+                stop = True
+                break
+            w = _fault_clause(P, Q, above, near, req, system, ci)
+            if w is not None:
+                i, side = w
+                bad('fault-' + side, f'{what}: atom {i} ({side} the plane, at {P[i].tolist()}) moved by '
+                    f'{(Q[i] - P[i]).tolist()}, must move by {req.tolist() if side == "above" else [0, 0, 0]} modulo the '
+                    f'in-plane cell vectors')
+                stop = True
+                break
+        if stop:
+            break
+        # the same call on the new object returns the same thing
+        fres = _apply(f, op)
+        if fres[0] != 'ok':
+            bad('fresh', f'{_show_op(op)} on a new object given the same final arguments raised {fres[1]}')
+            break
+        fitems = [(None, None, fres[1])] if op['op'] == 'fault' else fres[1]
+        if len(fitems) != len(items) or any(not np.array_equal(np.asarray(x[2].atoms.pos), np.asarray(y[2].atoms.pos))
+                                            for x, y in zip(items, fitems)):
+            bad('fresh', f'{_show_op(op)} returns different positions on a new object given the same final arguments')
+            break
+    return failed, done
+
+
+def _show_op(op):
+    if op['op'] in ('fprel', 'fpcart'):
+        return f'faultpos_{"rel" if op["op"] == "fprel" else "cart"} = {op["value"]}'
+    name = {'map': 'iterfaultmap'}.get(op['op'], op['op'])
+    return name + '(' + ', '.join(f'{k}={v}' for k, v in (op.get('kw') or {}).items()) + ')'
+
+
+def _show_ops(ops):
+    return ' -> '.join(_show_op(o) for o in ops) if ops else 'construction'
+
+
+def _viol(ctx, key, what, rep, cap=3):
+    """at most `cap` reports per clause."""
+    c = ctx.extra.setdefault('_reported', {})
+    c[key] = c.get(key, 0) + 1
+    if c[key] <= cap:
+        ctx.violate(key, what, rep)
+
+
+def _correspond_histories(ctx):
+    rng = random.Random(ctx.seed * 104729 + 1414)
+    specs = _hist_specs(ctx, rng, ctx.n(160, 1500))
+    nf = nops = 0
+    for spec in specs:
+        f, done = run_history(ctx, spec, 'model')
+        nf += bool(f)
+        nops += len(done)
+    ctx.extra['histories_model'] = {'objects': len(specs), 'calls': nops, 'failed': nf}
+
+
+def _search_histories(ctx, broken):
+    rng = random.Random(ctx.seed * 15485863 + 1415)
+    specs = _hist_specs(ctx, rng, ctx.n(240, 2500) * (2 if broken else 1))
+    nf = nops = 0
+    for spec in specs:
+        try:
+            f, done = run_history(ctx, spec, 'oracle')
+        except cm.InfraError:
+            raise
+        except Exception as e:  # noqa  (an exception in the oracle's own reads of the object is a finding of its own)
+            _viol(ctx, 'hist:exception', f'{spec}: {type(e).__name__}: {e}', dict(spec))
+            f, done = ['exception'], []
+        nf += bool(f)
+        nops += len(done)
+    ctx.extra['histories_oracle'] = {'objects': len(specs), 'calls': nops, 'failed': nf}
+
+
 def correspond(ctx):
     try:
         _correspond_tables(ctx)
         _correspond_fsb(ctx)
         _correspond_fs(ctx, True)
         _correspond_fs(ctx, False)
+        _correspond_histories(ctx)
     finally:
         _close_pool()
 
@@ -1447,6 +2418,9 @@ def search(ctx, broken):
         nf += bool(f)
         nsys += 1
     ctx.extra['oracle_free_surface'] = {'cases': nsys, 'failed': nf}
+    # (D) histories on one object
+    _search_histories(ctx, broken)
+    ctx.extra.pop('_reported', None)
 
 
 def replay(ctx, payload):
@@ -1460,6 +2434,13 @@ def replay(ctx, payload):
         spec = {k: r[k] for k in ('crystal', 'a', 'c', 'exact', 'hkl', 'cut', 'tol', 'maxindex', 'seed')}
         f = o_free_surface(ctx, spec)
         print('replay FreeSurface/StackingFault oracle:', f or 'all clauses hold')
+    elif op == 'hist':
+        spec = {k: v for k, v in r.items() if k != 'ops'}
+        f, _ = run_history(ctx, spec, 'oracle', ops=r.get('ops'))
+        print('replay history oracle:', f or 'all clauses hold')
+        if ctx.driver is not None:
+            f, _ = run_history(ctx, spec, 'model', ops=r.get('ops'))
+            print('replay history against the model:', f or 'agrees')
     else:
         if ctx.driver is not None:
             correspond(ctx)
